@@ -50,7 +50,20 @@ var (
 	offLink4 = tcpip.Address("\xc0\xa8\x07\x07")
 )
 
-func neighAddr(k int) tcpip.Address { return tcpip.Address([]byte{10, 0, 0, byte(2 + k)}) }
+// neighbours 0..5 live in 10.0.0.0/24; neighbour 6 is the host 10.0.4.255 of the second on-link network
+// 10.0.4.0/23 - an ordinary host address that happens to end in 255
+func neighAddr(k int) tcpip.Address {
+	if k == 6 {
+		return tcpip.Address([]byte{10, 0, 4, 255})
+	}
+	return tcpip.Address([]byte{10, 0, 0, byte(2 + k)})
+}
+
+const nNeigh = 7
+
+func onLink4(dst tcpip.Address) bool {
+	return len(dst) == 4 && dst[0] == 10 && dst[1] == 0 && (dst[2] == 0 || dst[2]&0xfe == 4)
+}
 func neighMAC(k, gen int) tcpip.LinkAddress {
 	return tcpip.LinkAddress([]byte{0x02, 0xaa, byte(gen), 0, 0, byte(2 + k)})
 }
@@ -152,7 +165,7 @@ func (w *neighWorld) observe() {
 		// an IPv4 data frame: its next hop must have been resolved
 		dst := tcpip.Address(d.IP.Dst)
 		hop := dst
-		if len(dst) == 4 && !(dst[0] == 10 && dst[1] == 0 && dst[2] == 0) {
+		if len(dst) == 4 && !onLink4(dst) {
 			hop = gateway4
 		}
 		if dst == "\xff\xff\xff\xff" {
@@ -216,7 +229,7 @@ func (w *neighWorld) arpFrom(op uint16, sha tcpip.LinkAddress, spa, tpa tcpip.Ad
 
 func (w *neighWorld) trySend(dst tcpip.Address) {
 	hop := dst
-	if !(dst[0] == 10 && dst[1] == 0 && dst[2] == 0) {
+	if !onLink4(dst) {
 		hop = gateway4
 	}
 	w.nsent++
@@ -321,14 +334,14 @@ func (w *neighWorld) apply(s Step) {
 	w.f0 = w.Faults["link_write_error"]
 	switch s.Op {
 	case "send":
-		dst := neighAddr(s.A % 6)
+		dst := neighAddr(s.A % nNeigh)
 		if s.B == 1 {
 			dst = offLink4
 		}
 		w.trySend(dst)
 	case "reply":
 		// neighbour A (or the gateway if B==1) answers, optionally with a new link address
-		k := s.A % 6
+		k := s.A % nNeigh
 		addr, mac := neighAddr(k), neighMAC(k, w.gen[k])
 		if s.B == 1 {
 			k = 250
@@ -629,9 +642,9 @@ func (w *neighWorld) next(cfg NeighCfg) Step {
 	case 6:
 		return Step{Op: "send6", A: r.Intn(3), B: r.Intn(3), C: r.Intn(6)}
 	case 0:
-		return Step{Op: "send", A: r.Intn(6), B: r.Pick(4, 1)}
+		return Step{Op: "send", A: r.Intn(nNeigh), B: r.Pick(4, 1)}
 	case 1:
-		return Step{Op: "reply", A: r.Intn(6), B: r.Pick(5, 1), C: r.Pick(5, 1), D: int64(r.Pick(6, 2, 1))}
+		return Step{Op: "reply", A: r.Intn(nNeigh), B: r.Pick(5, 1), C: r.Pick(5, 1), D: int64(r.Pick(6, 2, 1))}
 	case 2:
 		return Step{Op: "request", A: r.Intn(6), B: r.Intn(4)}
 	case 3:
@@ -668,6 +681,7 @@ func (scNeigh) Run(t *testing.T, prop string, seed uint64, cfgRaw json.RawMessag
 		}
 		w.S.S.SetRouteTable([]tcpip.Route{
 			{Destination: "\x0a\x00\x00\x00", Mask: "\xff\xff\xff\x00", NIC: 1},
+			{Destination: "\x0a\x00\x04\x00", Mask: "\xff\xff\xfe\x00", NIC: 1},
 			{Destination: "\x00\x00\x00\x00", Mask: "\x00\x00\x00\x00", Gateway: gateway4, NIC: 1},
 			{Destination: tcpip.Address(make([]byte, 16)), Mask: tcpip.AddressMask(make([]byte, 16)), NIC: 1},
 		})
